@@ -545,9 +545,13 @@ def qr_rq(ex, state, name, a, kw, line):
     if name == 'qr':
         q = npmodel.new_arr(state, [m, k], a.cplx, flags={'isocols': True})
         r = npmodel.new_arr(state, [k, n], a.cplx)
+        for x in (q, r):
+            x.contig = fresh('ct', 'bool')          # LAPACK results come back in Fortran or C order
         return SList(state.alloc(), None, items=[q, r])
     r = npmodel.new_arr(state, [m, k], a.cplx)
     q = npmodel.new_arr(state, [k, n], a.cplx, flags={'isorows': True})
+    for x in (q, r):
+        x.contig = fresh('ct', 'bool')
     return SList(state.alloc(), None, items=[r, q])
 
 
